@@ -53,6 +53,8 @@ State(c) ==
       [] c.p = "*" -> [set |-> TRUE, null |-> Len(av) = 0 \/ (Len(av) = 1 /\ av[1] = <<>>),
                        vals |-> IF Len(av) = 0 THEN <<>> ELSE IF c.q = "dq" THEN <<JoinWith(av, IFSFirst(c.ifs))>> ELSE av]
       [] c.p = "#" -> [set |-> TRUE, null |-> FALSE, vals |-> << <<ToString(Len(av))>> >>]
+      \* $- is always set; without any option it is null (the driver sets no option but nounset for this parameter)
+      [] c.p = "-" -> [set |-> TRUE, null |-> ~c.nounset, vals |-> << (IF c.nounset THEN <<"u">> ELSE <<>>) >>]
       [] OTHER     -> [set |-> FALSE, null |-> FALSE, vals |-> <<>>]           \* "!"
 
 (* a pre-field: positions [c, q] *)
